@@ -120,9 +120,13 @@ Ltac pose_lits :=
              lazymatch goal with _ : 1 <= lit_cells v |- _ => fail | _ => pose proof (lit_cells_pos v) end
          end.
 
+(* family-specific facts: rebound with ::= by the family files *)
+Ltac extra_hyps := idtac.
+Ltac extra_goal := idtac.
+
 Ltac grow_fin :=
-  unfold weight; proj_cbn; unfold str in *; use_hyps;
-  autorewrite with wdb in *; use_goal; autorewrite with wdb in *; eval_instrs;
+  unfold weight in *; proj_cbn; unfold str in *; use_hyps; extra_hyps;
+  autorewrite with wdb in *; use_goal; extra_goal; autorewrite with wdb in *; eval_instrs;
   cbn [lit_cells] in *;
   pose_nn; pose_lits;
   unfold bindw in *; cbn [fst snd] in *; autorewrite with wdb in *; cbn [lit_cells] in *; pose_lits;
